@@ -68,6 +68,7 @@ def step (grant : Nat → Option Int) (s : S) : Ev → Except String S
       .ok { s with holders := r.1, queue := r.2, reads := s.reads.filter (·.1 ≠ a) }
   | .balRead a x asset v =>
     if x = "world" then .ok s else
+    if s.pending.any (·.by_ = a) then .error "floor: balance read while the request's own log is not yet persisted" else
     match holdOf s a with
     | none => .error "floor: balance read without holding the account locks"
     | some h =>
@@ -84,7 +85,7 @@ def step (grant : Nat → Option Int) (s : S) : Ev → Except String S
       then .error "floor: a source whose balance was not read"
       else if !floorOk (grant a) (fun x asset => (readOf s a x asset).getD 0) l.postings
       then .error "floor: the postings overdraw the balances the script was run against"
-      else .ok { s with pending := s.pending ++ [⟨l, a⟩] }
+      else .ok { s with pending := s.pending ++ [⟨l, a⟩], reads := s.reads.filter (·.1 ≠ a) }   -- the reads are consumed: a further commit needs fresh ones
   | .gate n ok =>
     if n = 0 ∨ n > s.pending.length then .error "floor: batch larger than what is pending"
     else if ok then .ok { s with durable := s.durable ++ s.pending.take n, pending := s.pending.drop n }
